@@ -47,6 +47,15 @@ def check(ix, rep):
                         t = _ast.unparse(par.test).replace(' ', '')
                         if t.endswith('inself.ast.free_vars') and 'notin' not in t:
                             guarded = True
+                    # guard clause: an earlier statement of the same block leaves it for everything that is not an input
+                    for fld in ('body', 'orelse'):
+                        blk = getattr(par, fld, None)
+                        if isinstance(blk, list) and any(q is b for b in blk):
+                            for prev in blk[:[i_ for i_, b in enumerate(blk) if q is b][0]]:
+                                if isinstance(prev, _ast.If) and not prev.orelse and prev.body and isinstance(prev.body[-1], (_ast.Continue, _ast.Return, _ast.Raise)):
+                                    t = _ast.unparse(prev.test).replace(' ', '')
+                                    if t.endswith('notinself.ast.free_vars') or (t.startswith('not(') and t.endswith('inself.ast.free_vars)') and 'notin' not in t):
+                                        guarded = True
                     q = par
                 slot = '%s:data-entry:inputs-only' % m.kind
                 if guarded:
